@@ -269,8 +269,16 @@ func vfC08Seed(e *vfC08Entry, p *vfPkt) (in []byte, lens []int, flags uint32, ok
 	return nil, nil, 0, false
 }
 
+// vfC08FieldValues are the values a length or count field of current value n is replaced with: the
+// boundary values, and (seed C08-b) the counts whose product with an element size of 2..32 bytes wraps
+// around 2^32 to something small, which a bound written as count*size <= len lets through.
 var vfC08FieldValues = func(n uint32) []uint32 {
-	return []uint32{0, 1, n - 1, n + 1, 1<<31 - 1, 1<<32 - 1, 256 * 1024, 256*1024 + 1, 256*1024 - 1}
+	vs := []uint32{0, 1, n - 1, n + 1, 1<<31 - 1, 1<<32 - 1, 256 * 1024, 256*1024 + 1, 256*1024 - 1}
+	for sh := uint(1); sh <= 5; sh++ {
+		q := uint32(1) << (32 - sh) // 2^32 / element size
+		vs = append(vs, q, q+1, q+n, (1<<sh-1)*q+n)
+	}
+	return vs
 }
 
 func vfKindIndexOfType(t *rapid.T, types []byte) int {
